@@ -348,3 +348,67 @@ Proof.
   apply H. exact Hw.
 Qed.
 End Brandes.
+
+(* ---------------------------------------------------------------------------------------- *)
+(* (c) the DAG path counts exist: for any predecessor relation that strictly increases a potential *)
+(* ---------------------------------------------------------------------------------------- *)
+Section DagCount.
+Variable n : nat.
+Variable P : mat bool.
+Variable pot : nat -> Z.
+Hypothesis Hpot : forall w v, (w < n)%nat -> (v < n)%nat -> P w v = true -> (pot v < pot w)%Z.
+
+(* number of P-paths v -> ... -> t with at most k connections *)
+Fixpoint cnt (k : nat) (v t : nat) : Q :=
+  if Nat.eqb v t then 1 else
+  match k with O => 0 | S k' => sumQ (fun w => ind (P w v) * cnt k' w t) n end.
+
+Lemma cnt_zero k : forall v t, (v < n)%nat -> v <> t -> (pot t <= pot v)%Z -> cnt k v t == 0.
+Proof.
+  induction k as [|k IH]; intros v t Hv Hne Hle; cbn [cnt]; destruct (Nat.eqb_spec v t); try contradiction; [reflexivity|].
+  apply sumQ_zero'. intros w Hw. destruct (P w v) eqn:Hp; cbn [ind]; [|ring].
+  pose proof (Hpot w v Hw Hv Hp). rewrite IH; [ring|exact Hw| |lia]. intros ->. lia.
+Qed.
+
+Lemma cnt_stable k : forall v t, (v < n)%nat -> (pot t - pot v <= Z.of_nat k)%Z -> cnt k v t == cnt (S k) v t.
+Proof.
+  induction k as [|k IH]; intros v t Hv Hb.
+  - cbn [cnt]. destruct (Nat.eqb_spec v t) as [->|Hne]; [reflexivity|].
+    symmetry. apply sumQ_zero'. intros w Hw. destruct (P w v) eqn:Hp; cbn [ind]; [|ring].
+    pose proof (Hpot w v Hw Hv Hp). destruct (Nat.eqb_spec w t) as [->|Hne']; [lia|ring].
+  - change (cnt (S k) v t) with (if Nat.eqb v t then 1 else sumQ (fun w => ind (P w v) * cnt k w t) n).
+    change (cnt (S (S k)) v t) with (if Nat.eqb v t then 1 else sumQ (fun w => ind (P w v) * cnt (S k) w t) n).
+    destruct (Nat.eqb v t); [reflexivity|]. apply sumQ_ext. intros w Hw.
+    destruct (P w v) eqn:Hp; cbn [ind]; [|ring]. pose proof (Hpot w v Hw Hv Hp).
+    rewrite (IH w t Hw) by lia. reflexivity.
+Qed.
+
+Lemma cnt_stable_ge k k' v t : (v < n)%nat -> (pot t - pot v <= Z.of_nat k)%Z -> (k <= k')%nat ->
+  cnt k v t == cnt k' v t.
+Proof.
+  intros Hv Hb Hle. induction Hle as [|m Hle IH]; [reflexivity|].
+  rewrite IH. apply cnt_stable; [exact Hv|lia].
+Qed.
+
+Definition dag_count (v t : nat) : Q := cnt (Z.to_nat (pot t - pot v)) v t.
+
+Lemma dag_count_refl v : dag_count v v == 1.
+Proof. unfold dag_count. destruct (Z.to_nat (pot v - pot v)); cbn [cnt]; rewrite Nat.eqb_refl; reflexivity. Qed.
+
+Lemma dag_count_step v t : (v < n)%nat -> (t < n)%nat -> v <> t ->
+  dag_count v t == sumQ (fun w => ind (P w v) * dag_count w t) n.
+Proof.
+  intros Hv Ht Hne. unfold dag_count. set (k := Z.to_nat (pot t - pot v)).
+  rewrite (cnt_stable k v t Hv) by (unfold k; lia).
+  cbn [cnt]. destruct (Nat.eqb_spec v t); [contradiction|].
+  apply sumQ_ext. intros w Hw. destruct (P w v) eqn:Hp; cbn [ind]; [|ring].
+  pose proof (Hpot w v Hw Hv Hp).
+  rewrite (cnt_stable_ge (Z.to_nat (pot t - pot w)) k w t Hw); [reflexivity|lia|unfold k; lia].
+Qed.
+
+Lemma dag_count_acyc w v : (w < n)%nat -> (v < n)%nat -> P w v = true -> dag_count w v == 0.
+Proof.
+  intros Hw Hv Hp. pose proof (Hpot w v Hw Hv Hp). unfold dag_count. apply cnt_zero; [exact Hw| |lia].
+  intros ->. lia.
+Qed.
+End DagCount.
